@@ -273,7 +273,7 @@ func (c *Ctx) String(t *rapid.T, pos Pos) *model.Node {
 	if p.UnmappedFormats && rapid.IntRange(0, 4).Draw(t, "unmappedformat") == 0 {
 		// a format the tool has no Go type for: the field stays a plain string and its length and
 		// pattern limits stay in force
-		n.Noise = append(n.Noise, jv.KV{K: "format", V: jv.StrV(rapid.SampledFrom([]string{"email", "uri", "uuid", "hostname", "x-custom"}).Draw(t, "unmappedformatv"))})
+		n.Noise = append(n.Noise, jv.KV{K: "format", V: jv.StrV(rapid.SampledFrom([]string{"email", "uri", "uuid", "hostname", "x-custom", "duration", "regex", "json-pointer"}).Draw(t, "unmappedformatv"))})
 	}
 	if chance(t, p.PConstraint*0.7, "haspattern") {
 		// only patterns that some string inside the length window can match
